@@ -393,3 +393,6 @@ RULES = [
     ("C12.SEGMERGE", 5, rule_segmerge),
     ("C12.FRAMEONLY", 10, rule_frameonly),
 ]
+
+from . import common as _common_purity
+RULES = RULES + _common_purity.purity_rules("C12")
